@@ -129,6 +129,43 @@ Theorem c11_rename_keeps_parameters : forall (lower : N -> N) (from to : ExSynta
 Proof. exact rename_keeps_parameters_stmt. Qed.
 Print Assumptions c11_rename_keeps_parameters.
 
+(* The WHOLE rename pipeline reads back (review 2, N1 and N3).  For every source text the models accept, with the side
+   conditions of c11_roundtrip_source on the source tree (lower-cased reference names are NAME lexemes and no keywords,
+   no text value ends in a backslash), a new name whose lower case is a NAME lexeme and no keyword (pname_ok), and the
+   names the replacement refers to likewise (target_names; for a replacement that is a NAME this is the same condition):
+   the tree ContextRefRename really leaves, rename_full t = rename (avoid t) - the alpha steps of the capture-avoiding
+   step INCLUDED, i.e. also on the inputs of hunt findings C11/1 and second-wave C11/2 - is printed to a text that lexes,
+   parses back to exactly norm (rename_full t), and whose tokens are kind by kind the tokens of the source (so rule
+   nesting is that of the source).  Proof: the simultaneous induction over the six parser functions of c11_reparse_tokens,
+   generalised to a name-map STATE that follows the alpha steps (proofs/ExRoundtrip.v: greparse_tokens with state,
+   proofs/ExRenameFull.v: the instance), and the glue conditions carried through the renaming (proofs/ExRenameGlue.v:
+   parameters only get underscores appended, new references are name ++ underscores).  Hypotheses on lower: idempotent,
+   fixes the underscore (facts of unicode.ToLower, swept over all code points on every run).  Witness that the
+   hypotheses hold where the alpha step fires: rename_full_source_witness. *)
+Theorem c11_rename_full_reparse : forall (lower : N -> N) (printable : N -> bool) (from to : ExSyntax.text) inp ts t,
+  printable 10 = false -> (forall c, lower (lower c) = lower c) -> lower 95 = 95 -> valid_codepoints inp ->
+  lex inp = LOk ts -> parse_tokens ts = POk t ->
+  refs_ok lower t = true -> texts_ok t = true ->
+  pname_ok (map lower to) = true -> (forall n, In n (target_names lower to) -> pname_ok n = true) ->
+  let r := rename_full lower from to t in
+  exists ts', lex (print lower printable r) = LOk ts' /\ parse_tokens ts' = POk (norm lower r) /\ alike ts ts'.
+Proof. exact rename_full_source_stmt. Qed.
+Print Assumptions c11_rename_full_reparse.
+
+(* ... and therefore NO SPURIOUS ERROR: under the same conditions, when some free reference is named like `from`,
+   refactor.expression with the rename transformation returns exactly the printed renamed tree - its read-back step
+   succeeds; it answers neither with an error nor outside the model.  (This is the converse with content that
+   c11_refactor_output_parses lacked.) *)
+Theorem c11_rename_no_spurious_error : forall (lower : N -> N) (printable : N -> bool) (from to : ExSyntax.text) inp ts t,
+  printable 10 = false -> (forall c, lower (lower c) = lower c) -> lower 95 = 95 -> valid_codepoints inp ->
+  lex inp = LOk ts -> parse_tokens ts = POk t ->
+  refs_ok lower t = true -> texts_ok t = true ->
+  pname_ok (map lower to) = true -> (forall n, In n (target_names lower to) -> pname_ok n = true) ->
+  existsb (is_from lower from) (frefs (is_from lower from) t) = true ->
+  refactor_expression lower printable (rename_tx lower from to) inp = ROk (print lower printable (rename_full lower from to t)).
+Proof. exact rename_no_spurious_error_source_stmt. Qed.
+Print Assumptions c11_rename_no_spurious_error.
+
 (* "evaluates to the same value": PARTIAL — on the expression fragment model/ExTemplate.v evaluates (text
    literals, null, context properties, parentheses, &) the normalised tree evaluates exactly like the original in
    every context (context lookup is case-insensitive).  Missing: numbers, the other operators, lookups, function
